@@ -13,6 +13,8 @@ R5 write intent       an open (or handle-less access) that may write or truncate
 R2 (cont.)           import: each root backing inode is (layer, upper?, layer.root_inode(), not a whiteout, layer.is_opaque(root)), both kinds are recorded, the root is registered and loaded
 R4 (cont.)           layer scan skips exactly "." and ".."; every merged name becomes a child; is_whiteout is a conjunction
 R6/R7                live tree and precondition polarity, shared with C11.R6/R7
+R8 forwarding       an overlay operation passes its own scalars to the layer operation in the same role (same-named parameters)
+R4 (cont.)           a listing without a directory handle resolves the directory through lookup_node(inode, ".") (which loads it)
 """
 import json
 import re
